@@ -43,13 +43,16 @@ macro_rules! for_pair {
             "ZxT24" => $f::<Z, T24>($($arg),*),
             "B1xL200" => $f::<B1, L200>($($arg),*),
             "B1xT24" => $f::<B1, T24>($($arg),*),
+            "L600xB1" => $f::<L600, B1>($($arg),*),
+            "P8xL600" => $f::<P8, L600>($($arg),*),
+            "B1xL4K" => $f::<B1, L4K>($($arg),*),
             other => panic!("unknown element pair {}", other),
         }
     }};
 }
 
-pub const PAIRS: [&str; 14] = [
-    "P8xP8", "T24xT24", "B1xB1", "B1xZ", "B2xZ", "B3xZ", "B3xB1", "B6xZ", "P8xT24", "T24xZ", "L200xB1", "A64xP8", "P8xA64", "ZxT24",
+pub const PAIRS: [&str; 17] = [
+    "P8xP8", "T24xT24", "B1xB1", "B1xZ", "B2xZ", "B3xZ", "B3xB1", "B6xZ", "P8xT24", "T24xZ", "L200xB1", "A64xP8", "P8xA64", "ZxT24", "L600xB1", "P8xL600", "B1xL4K",
 ];
 
 /// Instantiates a generic scenario function for a named element type.
@@ -68,12 +71,14 @@ macro_rules! for_elem {
             "T24" => $f::<T24>($($arg),*),
             "L200" => $f::<L200>($($arg),*),
             "A64" => $f::<A64>($($arg),*),
+            "L600" => $f::<L600>($($arg),*),
+            "L4K" => $f::<L4K>($($arg),*),
             other => panic!("unknown element {}", other),
         }
     }};
 }
 
-pub const ELEMS: [&str; 10] = ["Z", "Z8", "B1", "B2", "B3", "B6", "P8", "T24", "L200", "A64"];
+pub const ELEMS: [&str; 12] = ["Z", "Z8", "B1", "B2", "B3", "B6", "P8", "T24", "L200", "A64", "L600", "L4K"];
 
 pub fn dispatch(c: &mut Ctx) -> bool {
     match c.prop.as_str() {
